@@ -383,6 +383,8 @@ def judge(prop, r, cfg):
             if f.get("h") is not None and f.get("of") is not None and int(f["h"]) != prev_h + int(f["of"]):
                 out.append(("h", "level %d: new data handle is not accessor.offset(handle, offset)" % l, True))
             prev_h = int(f.get("h", 0))
+            if f.get("ac") not in (None, "UB") and int(f["ac"]) & 1:
+                out.append(("ac", "level %d: the view's accessor is not the source accessor's offset_policy (the handle returned by offset() is only meaningful to that policy)" % l, True))
         elif prop == "C10":
             off, sp = int(f["of"]), int(f["sp"])
             if prev_sp is not None:
